@@ -80,10 +80,22 @@ def gen(rng):
     b = [rhs[i] for i in order]
     c = [rng.randint(-5, 5) for _ in range(n)]
     feasible_guess = [min(ub[j], rng.randint(0, 2)) for j in range(n)]
+    neg_warm = None
+    if cv:
+        # integral and >= 0 on the integer variables, satisfies the rows if any tried value does, negative on the continuous one
+        for y in (-0.5, -1.0, -2.0, -3.0, -0.25):
+            w = [float(v) for v in feasible_guess]
+            w[cv - 1] = y
+            neg_warm = neg_warm or w
+            if all(sum(A[i][j] * w[j] for j in range(n)) <= b[i] for i in range(len(A))):
+                neg_warm = w
+                break
     configs = []
     for minimize in (True, False):
         configs.append({"minimize": minimize})
         configs.append({"minimize": minimize, "heuristics": False})
+        if neg_warm:
+            configs.append({"minimize": minimize, "warm": neg_warm})
         configs.append({"minimize": minimize, "warm": [float(v) for v in feasible_guess]})
         configs.append({"minimize": minimize, "warm": [0.5] * n})
         configs.append({"minimize": minimize, "warm": [0.0] * (n + 1)})
